@@ -77,6 +77,11 @@ def build_case(case):
         exe = lname(0, case.get('layout', 0))
         L.append("executable(%r, ['main.c'], libs=[%s])" % (exe, ', '.join(
             'L%d' % j for j in case['elibs'])))
+        # a second consumer of the same libraries at another depth (run-time
+        # search paths are relative to each output's own directory)
+        exe2 = 'deep/er/than/prog2'
+        L.append("executable(%r, ['main.c'], libs=[%s])" % (exe2, ', '.join(
+            'L%d' % j for j in case['elibs'])))
         open(os.path.join(src, 'build.bfg'), 'w').write('\n'.join(L) + '\n')
         env = tool_env()
         bld = os.path.join(root, 'build')
@@ -95,9 +100,9 @@ def build_case(case):
         if rc != 0:
             return events
 
-        def runprog(b):
+        def runprog(b, which=None):
             e = {'PATH': '/usr/bin:/bin'}
-            rc, out = run([os.path.join(b, exe)], cwd='/', env=e)
+            rc, out = run([os.path.join(b, which or exe)], cwd='/', env=e)
             try:
                 val = int(out.strip())
             except ValueError:
@@ -105,11 +110,13 @@ def build_case(case):
             return {'ev': 'Run', 'exit': rc, 'out': val,
                     'note': out[-200:] if rc else ''}
         events.append(runprog(bld))
+        events.append(runprog(bld, exe2))
         moved = os.path.join(root, 'elsewhere', 'moved build')
         os.makedirs(os.path.dirname(moved))
         os.rename(bld, moved)
         events.append({'ev': 'Move'})
         events.append(runprog(moved))
+        events.append(runprog(moved, exe2))
         return events
     finally:
         shutil.rmtree(root, ignore_errors=True)
